@@ -16,10 +16,10 @@ ASSUMES = P.ASSUMES_PIPELINE + [
     "uninterpreted function of exactly the arguments the code passes, so outputs can only be equal for all values if the "
     "perturbed count is not among those arguments; identical float operation sequences on identical operands are bit-identical"]
 OUTSIDE = P.OUTSIDE_PIPELINE + ["gaussian aggregate bounds of the groups that contain the perturbed unit (they legitimately move "
-                                "with the floor term)", "bootstrap estimator: covered at the compute_bootstrap_errors level in c10 'bs' cases"]
+                                "with the floor term)", "bootstrap estimator: covered at the level of the compute_bootstrap_errors body (bs cases), not through the client"]
 BOUNDS = {"quick": "NP (4 reporting) and GA (7 reporting, calibration units spread over / concentrated in one county), 2 nonreporting + "
                    "1 perturbed unit of each kind {nonreporting, blocklisted, zero-baseline, unexpected}; 2 counties, classification "
-                   "level; historical clause: 3 units, one hidden",
+                   "level; historical clause: 3 units, one hidden; bootstrap: compute_bootstrap_errors body with 2 outstanding units, B=2",
           "thorough": "adds 2 estimands, 2 alphas, district office"}
 OPTS = {"quick": dict(case_timeout_s=900, solver_timeout_ms=30000), "thorough": dict(case_timeout_s=3000, solver_timeout_ms=60000)}
 
@@ -67,10 +67,60 @@ def cases(tier):
                             boot_sigma_deterministic=True, cut_calibration=True, weight=40))
     for thr in (100, 90):
         out.append(dict(name="historical_thr%d" % thr, kind="historical", threshold=thr, weight=5))
+    for B in (2,) if tier == "quick" else (2, 3):
+        out.append(dict(name="bootstrap_errors_B%d" % B, kind="bs", B=B, weight=20))
     return out
 
 
+def run_bs(ctx, case):
+    """2-safety of the real compute_bootstrap_errors body (numeric leaves = uninterpreted functions of their arguments):
+    changing the partial margin / turnout factor of one outstanding unit (expected vote unchanged) leaves the draws and the
+    point predictions of the other outstanding unit untouched"""
+    from elexmodel.models.BootstrapElectionModel import BootstrapElectionModel as BEM
+    from . import c06
+
+    B = case["B"]
+    pev = [ctx.real("pev_%d" % i, 0, 120) for i in range(2)]
+    w = [ctx.real("w_%d" % i, 1, 10 ** 6) for i in range(2)]
+    nm = [ctx.real("nm_%d" % i, -1, 1) for i in range(2)]
+    tf = [ctx.real("tf_%d" % i, 0, 100) for i in range(2)]
+    nm_alt, tf_alt = ctx.real("nm_alt_0", -1, 1), ctx.real("tf_alt_0", 0, 100)
+    outs = []
+    L = c06.LeafStubs(ctx, uf=True).install()
+    try:
+        for variant in (0, 1):
+            m = BEM({"features": ["baseline_normalized_margin"], "B": B, "lambda_": 1.0})
+
+            def frame(n, tag, rep, cols):
+                d = pd.DataFrame({"postal_code": ["AA"] * n, "geographic_unit_fips": ["%s%d" % (tag, i) for i in range(n)],
+                                  "county_classification": ["k1"] * n, "baseline_normalized_margin": [0.1 * (i + 1) for i in range(n)],
+                                  "reporting": [rep] * n, "unit_category": ["expected"] * n})
+                for k_, v in cols.items():
+                    d[k_] = c06._col(v)
+                return d
+
+            rep = frame(2, "r", 1, {"baseline_weights": [300.0, 700.0], "results_normalized_margin": [0.1, -0.2],
+                                    "turnout_factor": [0.9, 1.1], "percent_expected_vote": [100.0, 100.0]})
+            non = frame(2, "n", 0, {"baseline_weights": w, "results_normalized_margin": [nm_alt if variant else nm[0], nm[1]],
+                                    "turnout_factor": [tf_alt if variant else tf[0], tf[1]], "percent_expected_vote": pev})
+            m.compute_bootstrap_errors(rep, non, rep.iloc[0:0].copy())
+            outs.append(m)
+    finally:
+        L.uninstall()
+    a, b = outs
+    obl = []
+    for nm_, attr in (("errors_B_1", "errors_B_1"), ("errors_B_2", "errors_B_2"), ("errors_B_3", "errors_B_3"), ("errors_B_4", "errors_B_4")):
+        for j in range(B):
+            obl.append(("bootstrap %s of the other outstanding unit unchanged [draw %d]" % (nm_, j),
+                        T.cell_equal(getattr(a, attr)[1, j], getattr(b, attr)[1, j])))
+    obl.append(("point margin of the other outstanding unit unchanged", T.cell_equal(a.weighted_yz_test_pred[1, 0], b.weighted_yz_test_pred[1, 0])))
+    obl.append(("point turnout of the other outstanding unit unchanged", T.cell_equal(a.weighted_z_test_pred[1, 0], b.weighted_z_test_pred[1, 0])))
+    return obl, {"e3": a.errors_B_3}
+
+
 def run(ctx, case):
+    if case["kind"] == "bs":
+        return run_bs(ctx, case)
     if case["kind"] == "historical":
         return run_historical(ctx, case)
     sc = P.build(ctx, case)
